@@ -291,6 +291,13 @@ func Consensus(trees <-chan Trees, cutoff float64) (*Tree, error) {
 		// The two branches around a single-child node, like the two branches
 		// under the root of a rooted tree, define the same bipartition, which
 		// must be counted only once per tree
+		// A root that is itself a tip: the tree is rooted at its neighbor, so
+		// that this tip is an ordinary one
+		if r := curtree.Tree.Root(); r.Tip() && !r.Neigh()[0].Tip() {
+			if err = curtree.Tree.Reroot(r.Neigh()[0]); err != nil {
+				return nil, err
+			}
+		}
 		curtree.Tree.RemoveSingleNodes()
 		if curtree.Tree.Rooted() {
 			curtree.Tree.UnRoot()
